@@ -644,7 +644,7 @@ func c20ResizeClip(c *Ctx, p *Prog, fn *ssa.Function) {
 		ext   *ssa.Parameter
 	}{{"width", fn.Params[1], fn.Params[3]}, {"height", fn.Params[2], fn.Params[4]}} {
 		sts := storesTo(fn, vpOwner, vn[dim.field])
-		ok := len(sts) == 1
+		ok := len(sts) >= 1
 		detail := ""
 		if ok {
 			var check func(v ssa.Value, d int) bool
@@ -676,7 +676,12 @@ func c20ResizeClip(c *Ctx, p *Prog, fn *ssa.Function) {
 				detail = "stored from " + valName(v)
 				return false
 			}
-			ok = check(sts[0].Val, 0)
+			// one store of the clipped value, or one store per case of the clip
+			for _, st := range sts {
+				if !check(st.Val, 0) {
+					ok = false
+				}
+			}
 		}
 		c.Check(ok, "C20-R5", "Resize:"+dim.field+"-clip", p.pos(fn.Pos()), "v."+dim.field+" is the requested extent or parent extent minus the requested origin "+detail)
 	}
